@@ -207,6 +207,7 @@ def static_part(ctx, hand_ok):
         "asm_statements_touching_rsp_but_not_writing_it": tr["others"],
         "make_context_empty": {"source_statements": tr["mk"]["empty_src"], "ops": tr["mk"]["empty"]},
         "make_context_voidcall": {"source_statements": tr["mk"]["voidcall_src"], "ops": tr["mk"]["voidcall"]},
+        "fp_control_instructions_in_sites": sum(1 for st in sites for x in st["text"] if re.match(r"^(stmxcsr|ldmxcsr|fnstcw|fstcw|fldcw)\b", x)),
         "publication_order": {"callbacks": tr["publish"]["callbacks"],
                               "helpers_publishing_a_parameter": tr["publish"]["helpers_publishing_a_parameter"],
                               "bodies": [{"function": b["name"], "line": b["line"], "events": ["%s %s" % e for e in b["events"]]}
@@ -373,13 +374,19 @@ def build_probe(ctx, opt):
 
 
 def run_case(exe, case, timeout=90):
-    """case = "workers nthreads iters seed"  or the yield storm  "Y workers batch yields_per_thread seed rounds" """
+    """case = "workers nthreads iters seed" | "P workers nthreads iters seed" (MYTH_CHILD_FIRST=0) |
+    "Y workers batch yields_per_thread seed rounds" (yield storm) | "F workers nthreads iters seed" (fp control state)"""
     f = case.split()
+    extra = {}
     if f[0] == "Y":
         w, args = f[1], [f[2], f[3], f[4], "yield", f[5]]
+    elif f[0] == "F":                                   # floating-point control state probe (own process)
+        w, args = f[1], [f[2], f[3], f[4], "fp"]
+    elif f[0] == "P":                                   # main probe with the global default set to parent-first
+        w, args, extra = f[1], f[2:5], {"MYTH_CHILD_FIRST": "0"}
     else:
         w, args = f[0], f[1:4]
-    env = dict(os.environ, MYTH_NUM_WORKERS=w)
+    env = dict(os.environ, MYTH_NUM_WORKERS=w, **extra)
     try:
         p = subprocess.run([exe] + args, env=env, stdout=subprocess.PIPE, stderr=subprocess.STDOUT, text=True,
                            errors="replace", timeout=timeout)
@@ -404,13 +411,21 @@ def oracle(case, rc, out):
         if int(f.get("yields", "-1")) != int(n) * int(it) * int(rounds):
             return "yield storm executed %s yields instead of %d" % (f.get("yields"), int(n) * int(it) * int(rounds))
         return None
-    w, n, it, seed = [int(x) for x in case.split()]
-    f = dict(m.groups() for m in re.finditer(r"(\w+)=(-?\d+)", last))
+    if case.startswith("F"):
+        f = dict(m.groups() for m in re.finditer(r"(\w+)=(-?\d+)", last))
+        if rc != 0 or not last.startswith("fp mode=fp"):
+            return "fp probe crashed or did not finish (exit status %d): %s" % (rc, last[-200:])
+        if int(f.get("checks", "0")) != int(case.split()[2]) * int(case.split()[3]):
+            return "fp probe made %s checks instead of %d" % (f.get("checks"), int(case.split()[2]) * int(case.split()[3]))
+        return None       # whether the control state survived is judged by fp_verdict (known finding)
+    w, n, it, seed = [int(x) for x in (case.split()[1:] if case.startswith("P") else case.split())]
+    f = dict(m.groups() for m in re.finditer(r"(\w+)=(-?\d+)", " ".join(out.split("\n")[-2:])))
     if rc == 124:
         return "probe did not terminate"
     if rc < 0 or rc > 1 or not last.startswith(("ok", "FAIL")):
         return "probe crashed (exit status %d): %s" % (rc, out[-200:])
-    for k in ("hint_overlap", "reg_bad", "stack_bad", "cb_misaligned", "entry_misaligned", "hint_bad", "hint_local_bad"):
+    for k in ("hint_overlap", "reg_bad", "stack_bad", "cb_misaligned", "entry_misaligned", "first_child_first_misaligned",
+              "first_parent_first_misaligned", "sched_loop_misaligned", "hint_bad", "hint_local_bad"):
         if int(f.get(k, "1")) != 0:
             extra = ""
             if k.startswith("hint"):
@@ -433,6 +448,13 @@ def gen_cases(ctx, n):
         cases.append("%d %d %d %d" % (w, r.choice([2, 4, 6, 8]), r.rng(30, 70), r.rng(1, 10 ** 6)))
     for _ in range(n):
         cases.append("%d %d %d %d" % (r.rng(1, 8), r.rng(1, 10), r.rng(10, 80), r.rng(1, 10 ** 6)))
+    # parent-first as the global default (MYTH_CHILD_FIRST=0): every thread created with default attributes and the
+    # scheduler entry path myth_make_context_voidcall / myth_entry_point carry the register / stack / alignment probe
+    for w in ((1, 3) if not ctx.thorough else (1, 2, 3, 4, 8)):
+        cases.append("P %d %d %d %d" % (w, r.choice([2, 4, 6]), r.rng(30, 60), r.rng(1, 10 ** 6)))
+    # floating-point control state (known finding C03-fp-control-not-preserved), own processes
+    for w, n in ((1, 3), (4, 4), (2, 2)):
+        cases.append("F %d %d %d %d" % (w, n, r.rng(40, 80), r.rng(1, 10 ** 6)))
     # yield storm: batches of short threads rotating through one worker's run queue with myth_yield_ex of every
     # option while the other workers steal; registers, stack array and the running-on-two-workers detector
     # are checked after every yield
@@ -471,6 +493,47 @@ def layout_model(tr, order, size):
     return (stk - ev(cv["ptr"]), stk - rsp if rsp is not None else None)
 
 
+FP_FINDING = "C03-fp-control-not-preserved"
+
+
+def fp_listed():
+    listed = {f.get("id") for f in vlib.known_findings("C03")}
+    # test hooks for the validation of the three branches (same idea as C10_TEST_UNLISTED)
+    listed |= set(x for x in os.environ.get("C03_TEST_LISTED", "").split(",") if x)
+    listed -= set(x for x in os.environ.get("C03_TEST_UNLISTED", "").split(",") if x)
+    return FP_FINDING in listed
+
+
+def fp_verdict(ctx, stats):
+    fp = stats.get("fp_control")
+    if not fp or not fp["checks"]:
+        return
+    listed = fp_listed()
+    fails = fp.pop("failing_cases")
+    fp["listed_in_known_findings"] = listed
+    if fails:
+        opt, c, out = fails[0]
+        first = out.split("first=", 1)[-1].strip()
+        msg = ("%s: the MXCSR control bits / x87 control word of a thread are not preserved across a context switch "
+               "(MYTH_SAVE_FPCSR is 0): %d of %d read-backs differ for MXCSR, %d for the x87 control word, %d of them after a migration; "
+               "first: %s [case F %s, library %s]" % (FP_FINDING, fp["mxcsr_bad"], fp["checks"], fp["x87_bad"], fp["bad_after_migration"],
+                                                     first[:260], c[2:], opt))
+        if listed:
+            fp["branch"] = "reproduced and listed in known_findings.json -> KNOWN-FINDING"
+            ctx.known(msg)
+        else:
+            fp["branch"] = "reproduced but NOT listed in known_findings.json -> VIOLATION"
+            ctx.violation("oracle", msg, {"case": c, "library_opt": opt, "observed": out, "level": "library",
+                                          "expected": "mxcsr_bad=0 x87_bad=0 (control bits of MXCSR and the x87 control word are callee-saved)",
+                                          "finding": FP_FINDING + " (not listed in known_findings.json)",
+                                          "program": "harness/c03_probe.c, mode fp (fp_thread / fp_child)",
+                                          "model": "Properties_C03.v : C03_fp_control_refuted"}, found=True)
+    else:
+        fp["branch"] = ("not reproduced: every read-back of the control state matched (the switch sequences of this tree preserve it)" +
+                        ("; the finding is still listed in known_findings.json - it can be retired" if listed else ""))
+        ctx.notes.append("fp control state: " + fp["branch"])
+
+
 def dynamic_part(ctx, tr):
     corpus = []
     cp = os.path.join(vlib.VERIF, "corpus", "C03", "cases.txt")
@@ -487,7 +550,21 @@ def dynamic_part(ctx, tr):
         for c in cases:
             rc, out = run_case(exe, c)
             stats["cases"] += 1
-            w = c.split()[1] if c.startswith("Y") else c.split()[0]
+            w = c.split()[1] if c[0] in "YFP" else c.split()[0]
+            if c.startswith("F"):
+                ff = dict(m.groups() for m in re.finditer(r"(\w+)=(-?\d+)", out.split("\n")[-1] if out else ""))
+                fp = stats.setdefault("fp_control", {"runs": 0, "checks": 0, "mxcsr_bad": 0, "x87_bad": 0, "bad_after_migration": 0, "failing_cases": []})
+                fp["runs"] += 1
+                for k in ("checks", "mxcsr_bad", "x87_bad", "bad_after_migration"):
+                    fp[k] += int(ff.get(k, "0"))
+                if int(ff.get("mxcsr_bad", "0")) or int(ff.get("x87_bad", "0")):
+                    fp["failing_cases"].append((opt, c, out[-600:]))
+            elif not c.startswith("Y"):
+                ff = dict(m.groups() for m in re.finditer(r"(\w+)=(-?\d+)", " ".join(out.split("\n")[-2:])))
+                for k in ("first_child_first", "first_parent_first", "sched_loop_samples"):
+                    stats[k] = stats.get(k, 0) + int(ff.get(k, "0"))
+                if c.startswith("P"):
+                    stats["runs_with_MYTH_CHILD_FIRST_0"] = stats.get("runs_with_MYTH_CHILD_FIRST_0", 0) + 1
             stats["by_workers"][w] = stats["by_workers"].get(w, 0) + 1
             if c.startswith("Y"):
                 stats["yield_storm_cases"] = stats.get("yield_storm_cases", 0) + 1
@@ -509,10 +586,18 @@ def dynamic_part(ctx, tr):
                     layout_diffs.append((opt, c, hl, "model (stk-hint, stk-rsp0) = %s, measured %s" % (pred, got)))
                 if len(stats["hint_layout_samples"]) < 8 and hl not in stats["hint_layout_samples"]:
                     stats["hint_layout_samples"].append(hl)
-            if len(ctx.cov["samples"]) < 9 and (c == cases[len(corpus)] or c == cases[-1]):
-                ctx.cov["samples"].append({"case": ("yield storm: Y workers batch yields seed rounds = " if c.startswith("Y") else "workers nthreads iters seed = ") + c, "library": opt, "impl": out[-300:]})
+            if len(ctx.cov["samples"]) < 11 and (c == cases[len(corpus)] or c == cases[-1] or c.startswith(("F 1", "P 1"))):
+                ctx.cov["samples"].append({"case": ("yield storm: Y workers batch yields seed rounds = " if c.startswith("Y") else "[F fp / P parent-first default] workers nthreads iters seed = ") + c, "library": opt, "impl": out[-300:]})
     stats["oracle_failures"] = len(failing)
     stats["disagreements"] = len(layout_diffs)
+    for k, what in (("first_child_first", "first function of a child-first thread (myth_create_1)"),
+                    ("first_parent_first", "first function of a parent-first thread (myth_entry_point)"),
+                    ("sched_loop_samples", "scheduler loop (myth_sched_loop)")):
+        if stats.get(k, 0) <= 0 and not failing:
+            ctx.violation("coverage", "the probe never sampled rsp alignment in the " + what,
+                          {"theorem_or_correspondence": "dynamic cross-check coverage gate " + k, "stats": {x: stats.get(x) for x in
+                           ("first_child_first", "first_parent_first", "sched_loop_samples")}}, found=False)
+    fp_verdict(ctx, stats)
     ctx.cov["correspondence"] = stats
     if failing:
         opt, c, out, msg = failing[0]
@@ -536,7 +621,7 @@ def run(ctx):
         "translator tools/translate_ctx.py (regex parser of gcc -S #APP blocks and of the asm statements / make_context bodies in gcc -E output; "
         "everything it extracted is listed under coverage.translator and in build/C03/gen/CtxAsmGen.v)",
         "gcc: the instructions between #APP/#NO_APP are what is assembled; an asm statement's registers are live/dead exactly as its constraint and clobber lists say",
-        "x86-64 semantics of the 12 instruction forms as written in coq/Ctx/X86Model.v (word-granular memory; flags, x87/MXCSR and vector registers not modelled)",
+        "x86-64 semantics of the 12 instruction forms as written in coq/Ctx/X86Model.v (word-granular memory; flags and vector registers not modelled; the MXCSR control bits and the x87 control word are state that none of these instructions touches - Ctx/X86Model.v : xstate)",
         "abi_callee: callbacks (and the code of other threads) follow the SysV ABI and do not write the suspended stack at or above the saved rsp",
         "premise 'rsp = 0 mod 16 at the asm statement' is a compiler fact; cross-checked dynamically (callback-entry alignment samples), not proved",
         "harness/c03_probe.c (dynamic cross-check only; supports the tie, not the proof)",
@@ -551,7 +636,10 @@ def run(ctx):
         "a thread's context record is not inside its own live stack region [rsp-depth, top)",
         "custom data: the hint fits into the stack block (stack top after the carve-out >= 64); the allocator's stack top is block top - 16 with the size word at +8 (C12)",
         "rsp is 16-aligned and 8-aligned memory operands are used at every context-switch asm statement (compiler fact, sampled dynamically)",
-        "the compiler honours the asm constraint/clobber lists; x87/MXCSR/vector state is outside the model (MYTH_SAVE_FPCSR=0)"])
+        "the compiler honours the asm constraint/clobber lists; vector registers are outside the model",
+        "floating-point control state (MXCSR control bits, x87 control word): NOT preserved - C03_fp_control_refuted, known finding "
+        "C03-fp-control-not-preserved; the positive theorems are about rsp, rbp, rbx, r12-r15 and the stack; C03_fp_control_partial holds "
+        "under the guard that the resuming worker's control state equals the suspended thread's"])
 
 
 def replay(ctx, path):
